@@ -40,9 +40,9 @@ def cb_model(shape, *, fix, timeout=600, workers=4, **kw):
     return vlib.tlc("Callbacks", name, files={name: cfg_text(c, ("RuleOK",))}, workers=workers, timeout=timeout, heap="4g")
 
 
-def cb_generate(shape, *, timeout=600, workers=4, simulate=None, depth=None, seed=None, **kw):
+def cb_generate(shape, *, timeout=600, workers=4, simulate=None, depth=None, seed=None, tag="", **kw):
     c = cb_consts(shape, fix=False, gen=True, **kw)
-    name = "gen_cb_%s.cfg" % shape
+    name = "gen_cb_%s%s.cfg" % (shape, tag)
     run = vlib.tlc("Callbacks", name, files={name: cfg_text(c, ("Emit",))}, workers=workers, timeout=timeout, heap="4g",
                    simulate=simulate, depth=depth, seed=seed)
     vlib.tlc_must_pass(run, "C10 scenario generation " + shape)
@@ -68,6 +68,7 @@ def cb_decorate(cases, rnd, stream_frac=0.4):
         else:
             c["mode"] = "invoke"
             c["kinds"] = {u: rnd.choice(["i", "i", "i", "s", "t"]) for u in leaves}
+        c["bstream"] = rnd.random() < 0.5
         c["pol"] = {h["id"]: rnd.choice(["read", "read", "close", "half", "slow"]) for h in c["handlers"]}
         first = c["handlers"][0]["id"] if c["handlers"] else ""
         firsts = {first, "g1", "G1", "d1"}
